@@ -2044,6 +2044,37 @@ func lexLongTexts(thor bool) []string {
 	return out
 }
 
+// lexLongBinary: byte strings and big integers of the sizes real messages carry (certificates, wrapped keys, RSA moduli
+// of 8192 bits and more) and beyond, around the sizes at which a writer that encodes by chunks / through a scratch buffer
+// changes its path: the shared generators stop at 1000 bytes and 4096 bits.
+func lexLongBinary(thor bool) []*lexItem {
+	var out []*lexItem
+	sizes := []int{1023, 1024, 1025, 2047, 2048, 2049, 4095, 4096, 4097, 8191, 8192, 8193, 12000, 16383, 16384, 16385, 32767, 32768, 32769, 65535, 65536, 65537, 70001}
+	if thor {
+		sizes = append(sizes, 131071, 131072, 131073, 262145, 1<<20+3)
+	}
+	for k, n := range sizes {
+		b := make([]byte, n)
+		for i := range b {
+			b[i] = byte(i*131 + i>>8 + n)
+		}
+		out = append(out, &lexItem{kind: tree.KBytes, tag: []int{0x420043, 0x540001}[k%2], data: b})
+		if (n > 4097 && n != 8193 && !thor) || n > 16385 {
+			continue // the model's big-integer arithmetic is quadratic: 64 KiB numbers take seconds per line
+		}
+		// a big integer of n bytes: positive with the top bit of the first byte clear / set (sign byte needed), negative
+		for j, first := range []byte{0x7F, 0x80, 0x01} {
+			mag := append([]byte{first}, b[1:]...)
+			v := new(big.Int).SetBytes(mag)
+			if j == 2 {
+				v.Neg(v)
+			}
+			out = append(out, &lexItem{kind: tree.KBig, tag: []int{0x420078, 0x540002}[k%2], big: v})
+		}
+	}
+	return out
+}
+
 // ---- time zones: the property quantifies over messages, not over machines whose zone is UTC ---------------------
 
 type lexZone struct {
@@ -2426,6 +2457,17 @@ func lexRun(ctx *Ctx) {
 			{kind: tree.KText, tag: 0x540003, data: []byte(txt[:half])},
 		}}, true, true, true}, "long", false)
 	}
+	// (1c) long byte strings and big integers, alone and after other output
+	for i, x := range lexLongBinary(ctx.Thor) {
+		e.oneTree(ctx, lexTree{x, true, true, true}, "longbin", false)
+		if i%3 == 0 {
+			e.oneTree(ctx, lexTree{&lexItem{kind: tree.KStruct, tag: 0x420078, children: []*lexItem{
+				{kind: tree.KText, tag: 0x420094, data: bytes.Repeat([]byte("p"), []int{0, 1, 100, 449, 3000, 5000}[i%6])},
+				x,
+				{kind: tree.KBytes, tag: 0x540003, data: []byte{0xAB, 0xCD}},
+			}}, true, true, true}, "longbin", false)
+		}
+	}
 	// (2) hand-enumerated alternative lexical forms and element structures
 	for _, d := range e.handDocs() {
 		e.readerCase(ctx, d.c, []byte(d.doc), d.h, "hand")
@@ -2479,7 +2521,7 @@ func lexRun(ctx *Ctx) {
 		ctx.Res.Fail(fmt.Sprintf("lex: %d harness errors in total", lexFailCount))
 	}
 	// floors: the classes of input this engine exists for were all exercised
-	for k, min := range map[string]int{"w.xml.long": 20, "w.json.long": 20, "text.wide-alphabet": 50, "w.xml.readback-positional": 20, "w.json.readback-positional": 20,
+	for k, min := range map[string]int{"w.xml.long": 20, "w.json.long": 20, "w.xml.longbin": 60, "w.json.longbin": 60, "text.wide-alphabet": 50, "w.xml.readback-positional": 20, "w.json.readback-positional": 20,
 		"zone.xml.local.ok": 50, "zone.json.in.ok": 50, "r.xml.own-positional.ok": 50, "r.json.own-positional.ok": 50, "r.xml.hand.ok": 1000, "r.json.hand.ok": 1000} {
 		if ctx.Res.Distribution[k] < min {
 			ctx.Res.Fail(fmt.Sprintf("lex: only %d cases of class %s (floor %d)", ctx.Res.Distribution[k], k, min))
